@@ -184,3 +184,111 @@ def adversarial():
     A.append(('multi-one-bad', [('a.mamba', 'def x := 1\n'), ('b.mamba', 'def y := $\n'), ('c.mamba', 'def z: Int := "s"\n')]))
     A.append(('multi-empty', [('a.mamba', ''), ('b.mamba', '\n'), ('c.mamba', 'def x := 1\n')]))
     return A
+
+
+# ---------------------------------------------------------------------------------- structured generators
+TYPE_HEADS = ['Int', 'Str', 'Float', 'Bool', 'Any', 'Complex', 'None', 'Exception', 'Range', 'List', 'Set', 'Dict', 'Tuple', 'Callable', 'Collection',
+              'Union', 'Optional', 'Generic', 'T', 'U', 'Foo', 'Node', 'Tree']
+
+
+def type_expr(r, d=2, names=()):
+    """A type expression: well-formed or with wrong arity / odd nesting."""
+    heads = TYPE_HEADS + list(names)
+    c = r.random()
+    if d <= 0 or c < 0.35:
+        t = r.choice(heads)
+    elif c < 0.7:
+        h = r.choice(['List', 'Set', 'Dict', 'Tuple', 'Callable', 'Collection', 'Union'] + list(names))
+        n = r.choice([0, 1, 1, 2, 2, 3])
+        t = h + '[' + ', '.join(type_expr(r, d - 1, names) for _ in range(n)) + ']'
+    elif c < 0.8:
+        t = '(' + ', '.join(type_expr(r, d - 1, names) for _ in range(r.choice([0, 1, 2, 3]))) + ')'
+    elif c < 0.9:
+        t = '(' + ', '.join(type_expr(r, d - 1, names) for _ in range(r.choice([0, 1, 2]))) + ') -> ' + type_expr(r, d - 1, names)
+    else:
+        t = '{' + ', '.join(type_expr(r, d - 1, names) for _ in range(r.choice([1, 2, 3]))) + '}'
+    if r.random() < 0.15:
+        t += '?'
+    return t
+
+
+def type_fuzz_program(r):
+    """A valid program with type expressions in every position a type can stand; one or two of the
+    positions are replaced by a fuzzed (possibly ill-formed: wrong arity, odd nesting) type expression."""
+    holes = ['Float', 'Int', 'Int', 'Str', 'Int', 'Int', 'Int', 'Int', 'Int', '(Int) -> Int', 'Int', 'Int', 'List[Int]', 'Int', 'Exception']
+    k = len(holes)
+    for _ in range(r.choice([1, 1, 1, 2])):
+        holes[r.randrange(k)] = type_expr(r, r.choice([0, 1, 1, 2, 3]), ('Shape', 'Box'))
+    h = holes
+    lines = ['type Shape', f'    def area(self) -> {h[0]}', f'    def scale(self, k: {h[1]}) -> {h[2]}',
+             f'class Box(def item: {h[3]})', f'    def other: {h[4]} := 1', f'    def get(self) -> {h[5]} => 1',
+             f'type Alias: {h[6]}',
+             f'def f(x: {h[7]}, y: Int := 1) -> {h[8]} => x',
+             f'def g(h: {h[9]}) -> {h[10]} => h(1)',
+             f'def v1: {h[11]} := 1', f'def v2: {h[12]} := [1, 2]', f'def v3: {h[13]}? := None',
+             'def risky() -> Int raise [Exception] => 1', 'def w := risky() handle', f'    e: {h[14]} => 1',
+             'print(f(v1))']
+    if r.random() < 0.3:
+        del lines[r.randrange(len(lines))]
+    return '\n'.join(lines) + '\n'
+
+
+def hier_program(r):
+    """Random class graphs: generics with differing parameter letters, cycles, diamonds, self reference,
+    forward references, undefined parents, plus uses that force class look-up. 1-3 files."""
+    n = r.randrange(2, 7)
+    names = r.sample(['Node', 'Tree', 'Leaf', 'Base', 'Mid', 'Top', 'Ring', 'Hub'], n)
+    gens = {c: r.choice([None, None, 'T', 'U', 'V', 'T, U']) for c in names}
+    decls = []
+    for c in names:
+        g = gens[c]
+        head = f'class {c}' + (f'[{g}]' if g else '')
+        if r.random() < 0.4:
+            head += '(def v: Int)' if not g else f"(def v: {g.split(',')[0].strip()})"
+        parents = []
+        for p in r.sample(names, r.choice([0, 1, 1, 1, 2])):
+            pg = gens[p]
+            if pg:
+                own = [x.strip() for x in g.split(',')] if g else []
+                args = [r.choice(own + ['Int', 'Str']) for _ in pg.split(',')]
+                if r.random() < 0.1:
+                    args = args[:-1]
+                pref = f"{p}[{', '.join(args)}]" if args else p
+            else:
+                pref = p
+            if r.random() < 0.2:
+                pref += '(1)'
+            parents.append(pref)
+        if r.random() < 0.05:
+            parents.append('Missing')
+        if parents:
+            head += ': ' + ', '.join(parents)
+        body = []
+        if r.random() < 0.5:
+            body.append(f'    def size{r.randrange(3)}: Int := {r.randrange(9)}')
+        if r.random() < 0.4:
+            body.append(f'    def m{r.randrange(3)}(self) -> Int => {r.randrange(9)}')
+        decls.append('\n'.join([head] + body))
+    uses = []
+    for _ in range(r.randrange(1, 4)):
+        c = r.choice(names)
+        g = gens[c]
+        ty = c + ('[' + ', '.join(r.choice(['Int', 'Str']) for _ in g.split(',')) + ']' if g else '')
+        k = r.randrange(5)
+        if k == 0:
+            uses.append(f'def use{len(uses)}(n: {ty}) -> Int => n.size0')
+        elif k == 1:
+            uses.append(f'def o{len(uses)} := {c}()' if r.random() < 0.5 else f'def o{len(uses)} := {c}(1)')
+        elif k == 2:
+            uses.append(f'def o{len(uses)}: {ty} := {c}()\nprint(o{len(uses)}.m0())')
+        elif k == 3:
+            uses.append(f'def xs{len(uses)}: List[{ty}] := []')
+        else:
+            uses.append(f'def p{len(uses)}(n: {ty}) -> {ty} => n')
+    nfiles = r.choice([1, 1, 2, 3])
+    if nfiles == 1:
+        return [('in.mamba', '\n'.join(decls + uses) + '\n')]
+    files = [[] for _ in range(nfiles)]
+    for d in decls + uses:
+        files[r.randrange(nfiles)].append(d)
+    return [(f'h{i}.mamba', '\n'.join(f) + '\n') for i, f in enumerate(files)]
